@@ -109,6 +109,7 @@ class State:
     def __init__(self, wmodel):
         self.held = []          # (step, object as returned, its value when it was returned)
         self.kern = {}
+        self.exp = {}
         self.dm = {}
         self.wrap = {}
         self.wmodel = wmodel
@@ -145,6 +146,44 @@ def sv_apply(inst, pars, cutoff):
         else:
             inst.setParam(k, v)
     inst.cutoff = cutoff
+
+
+def make_experiment(m, q, r):
+    import os
+    sys.path.insert(0, os.path.join(os.path.dirname(os.path.abspath(__file__)), "stubs"))
+    from sasmodels import bumps_model
+    from sasmodels.data import empty_data1D, Data2D
+    qv = QS[q]
+    data = empty_data1D(qv[0]) if len(qv) == 1 else Data2D(x=qv[0], y=qv[1])
+    mod = model(m)
+    pars, cutoff = request(mod.info, r, False)
+    return bumps_model.Experiment(data, bumps_model.Model(mod, **pars), cutoff=cutoff)
+
+
+def experiment(st, m, q):
+    if (m, q) not in st.exp:
+        st.exp[(m, q)] = make_experiment(m, q, "mono")
+    return st.exp[(m, q)]
+
+
+def exp_apply(ex, r):
+    """Set the fit parameters of an existing Experiment to request r (values only; update() is the caller's business)."""
+    bm = ex.model
+    info = bm.sasmodel.info
+    for p in info.parameters.call_parameters:
+        getattr(bm, p.name).value = p.default
+        if p.polydisperse:
+            getattr(bm, p.name + "_pd").value = 0.0
+            getattr(bm, p.name + "_pd_n").value = 35.0
+            getattr(bm, p.name + "_pd_nsigma").value = 3.0
+            setattr(bm, p.name + "_pd_type", "gaussian")
+    pars, cutoff = request(info, r, False)
+    for k, v in pars.items():
+        if k.endswith("_pd_type"):
+            setattr(bm, k, v)
+        else:
+            getattr(bm, k).value = v
+    ex.cutoff = cutoff
 
 
 def do_op(st, e):
@@ -186,6 +225,21 @@ def do_op(st, e):
         except Exception as exc:
             val = ["raised", type(exc).__name__]
         return key, val, not same(before, pars)
+    if op in ("expset", "expupdate", "exptheory"):
+        ex = experiment(st, e["m"], e["q"])
+        if op == "expset":
+            exp_apply(ex, e["r"])
+            return "", [], False
+        if op == "expupdate":
+            ex.update()
+            return "", [], False
+        try:
+            res = ex.theory()
+            val = value_of(res)
+            st.held.append((e.get("n", -1), res, val))
+        except Exception as exc:
+            val = ["raised", type(exc).__name__]
+        return "", val, False
     if op == "reload":
         model(e["m"], reload=True)
         return "", [], False
@@ -237,6 +291,9 @@ def do_op(st, e):
 
 def oracle(key):
     kind, m, q, r = key.split("|")
+    if kind == "ex":
+        ex = make_experiment(m, q, r)
+        return value_of(ex.theory())
     if kind == "dm":
         st = State({})
         k, val, _ = do_op(st, {"op": "direct", "m": m, "q": q, "r": r})
